@@ -9,6 +9,26 @@ Q = "/venv/bin/python /verif/fv/check.py {id} --tier quick"
 T = "/venv/bin/python /verif/fv/check.py {id} --tier thorough"
 
 CLAIMS = {
+    "C02": dict(
+        technique="abstract interpretation of the generator over name-layouts + iteration inventory rules + compile witnesses (static)",
+        engine="E2 layout + genlayout + tmprules + E4 witness",
+        text="Static: cpp.ExtendedKalmanFilter / cpp.Model construction, reading_types() and every ast_fragments function are evaluated on "
+             "abstract models; every loop that contributes to generated text must run over the canonical sorted layout of its role "
+             "(GEN-ITER / SLOT-AGREE), accessors return the slot of their own enumeration index (SLOT-IDX), jacobian(i,j)/covariance(i,j)/"
+             "`double name` targets carry the indices of what they are assigned (LAY-JAC/COVIDX/TGT), substitution sets cover exactly the "
+             "emitted function's parameters incl. dt (SUBS), control noise is chosen by name (LAY-KEYMAT), cpp.BasicBlock follows the "
+             "temporaries protocol, declarations match definitions and the templates type-check for all four valuations.",
+        note="Trusted base: sympy diff/subs/ccode. Not decided: compilation against real Eigen, run-time values of the printed expressions.",
+        ref="3/C02"),
+    "C07": dict(
+        technique="pairwise equality of non-commutative normal forms (Python ast interpreter vs clang AST of rendered templates) + shared layouts + witnesses; static",
+        engine="E2/E3 + E4 witness/cppforms + genlayout",
+        text="Static: for all four control x calibration valuations the generated C++ prediction and update have exactly Python's normal forms "
+             "(covariance, posterior state/covariance, stored innovation), call their model/Jacobian/noise functions on the same argument lists, "
+             "take the same accept/reject decision (C06's rules on both sides), give every role the same sorted layout on both sides, bind named "
+             "fields to the same slots (genlayout SLOT rules), and type-check on dimension-typed matrices.",
+        note="Not decided: values of the sympy-printed bodies, rounding. Trusts clang and that numpy/Eigen implement the same matrix algebra.",
+        ref="3/C07"),
     "C06": dict(
         technique="non-commutative normal forms of three sibling implementations (Python ast interpreter, clang AST) + path/effect facts; static",
         engine="E2/E3 interpreter + E4 cppast/witness",
